@@ -855,16 +855,20 @@ class Array(Type):
 
     def _normalize_slice(self, slice_):
         start = slice_.start if slice_.start is not None else 0
-        stop = slice_.stop if slice_.stop is not None else self.get_size()
+        stop = slice_.stop if slice_.stop is not None else self.array_len
         step = slice_.step if slice_.step is not None else 1
+        if stop is None:
+            raise ValueError("A slice of an unsized array needs a stop")
         start = self._normalize_idx(start)
-        stop = self._normalize_idx(stop)
+        # The stop of a slice is exclusive: it may be the length of the array
+        if not (self.is_sized() and stop == self.array_len):
+            stop = self._normalize_idx(stop)
         return slice(start, stop, step)
 
     def _check_bounds(self, idx):
         if not isinstance(idx, int_types):
             raise ValueError("index must be an int or a long")
-        if idx < 0 or (self.is_sized() and idx >= self.size):
+        if idx < 0 or (self.is_sized() and idx >= self.array_len):
             raise IndexError("Index %s out of bounds" % idx)
 
     def _get_pinned_base_class(self):
